@@ -458,6 +458,20 @@ def check_case(t, v, idx):
         except Exception as e:  # noqa
             out.append(("C07", "decode-exception:%s:%s"
                         % (label, type(e).__name__), repr(e)[:200]))
+    # ---- the same bytes given as bytearray / memoryview / binary stream
+    if idx % 7 == 0:
+        for form, mk in (("bytearray", bytearray), ("memoryview", memoryview),
+                         ("stream", io.BytesIO)):
+            errs = []
+            try:
+                d = br.dec(mk(b), tname, True)
+                back = br.from_impl(d, t, errs, True)
+                if errs or R.freeze(back) != want:
+                    out.append(("C07", "roundtrip-value:input-as-" + form,
+                                "bytes %s decoded %r" % (b.hex(), d)))
+            except Exception as e:  # noqa
+                out.append(("C07", "decode-exception:input-as-%s:%s"
+                            % (form, type(e).__name__), repr(e)[:200]))
     # ---- C08: foreign bytes decode to the same value
     if rb is not None:
         foreign = [rb]
@@ -560,6 +574,20 @@ def ir_path_case(t, v, idx):
             if R.freeze(back) != want:
                 out.append(("C07", "ir-save-load-value:" + where,
                             "table came back as %r" % (cont.aux_data["t"].data,)))
+        # the value object handed to AuxData stays the table's value: an
+        # in-place edit through the caller's reference between two saves
+        # (no read of .data in between) must be written by the second save
+        if isinstance(iv, (list, set, dict)) and len(iv):
+            iv.clear()
+            buf2 = io.BytesIO()
+            ir.save_protobuf_file(buf2)
+            ir3 = g.IR.load_protobuf_file(io.BytesIO(buf2.getvalue()))
+            got = ir3.aux_data["t"].data
+            if got != type(iv)():
+                out.append(("C07", "ir-second-save-ignores-in-place-edit",
+                            "value emptied through the caller's reference "
+                            "after the first save; second save + load gives "
+                            "%r" % (got,)))
         from gtirb.proto import IR_pb2
 
         pm = IR_pb2.IR()
